@@ -44,7 +44,16 @@ fn run_case(r: &mut Report, m: &ReqModel, peer: SocketAddr, plans: &[Plan], seed
     let bytes = m.render();
     let names = m.names();
     let mut first: Option<Request> = None;
-    for plan in plans {
+    // where the head ends: an aborted parse (peer gone inside the head) precedes every second parse on this thread;
+    // whatever the parser keeps between calls must not leak into the next request (seeded C02-K)
+    let head_end = bytes.windows(4).position(|w| w == b"\r\n\r\n").map(|i| i + 2).unwrap_or(bytes.len());
+    for (pi, plan) in plans.iter().enumerate() {
+        if pi % 2 == 1 || plans.len() == 1 {
+            let cut = match pi % 6 { 1 => head_end.saturating_sub(3), 3 => head_end / 2, _ => head_end.saturating_sub(1 + (case as usize + pi) % head_end.max(1)) }.max(1).min(bytes.len());
+            let mut ab = ScriptedReader::new(&bytes[..cut], if pi % 4 == 1 { Plan::Fill } else { Plan::Sizes(vec![7]) });
+            let _ = catch_unwind(AssertUnwindSafe(|| Request::from_stream(&mut ab, peer)));
+            r.count("aborted_parses_before_a_well_formed_one", 1);
+        }
         r.eval();
         r.count("parses", 1);
         let mut rd = ScriptedReader::new(&bytes, plan.clone());
